@@ -2,6 +2,8 @@
   Props/C12 — SysV hash lookup is sound on any table (and complete on well-formed ones).
 -/
 import ElfVerif.Lemmas.Hash
+import ElfVerif.Lemmas.SysVHash
+import ElfVerif.Lemmas.SysVComplete
 namespace Elf.C12
 
 /-- **Soundness, for any table bytes**: if a lookup returns `(i, sym)` then `sym` is the symbol
@@ -55,6 +57,63 @@ theorem steps_le_nchain (t : SysVHashTable) (name : Slice) (symtab : Table Symbo
             · simp
             · rename_i nxt _; have := ih nxt (steps + 1); omega
 
+/-! ## The exported hash function -/
+
+/-- **`sysv_hash` equals the gABI `elf_hash` reference** (`h = (h << 4) + c; if (g = h & 0xf0000000)
+    h ^= g >> 24; h &= ~g` on a 32-bit word), for every byte string.  The crate computes it with a
+    different round (`h ^= (h >> 24) & 0xf0`, top nibble cleared once at the end); the proof is the
+    invariant "reference state = crate state mod 2^28" (Lemmas/SysVHash.lean). -/
+theorem hash_eq_elf_hash (name : Slice) : sysvHash name = elfHash name := sysv_hash_eq_elf_hash name
+
+/-! ## Completeness on well-formed tables
+
+  `WFSysV t symtab strtab`: `nbucket ≠ 0`, and every bucket holds the head of a chain
+  (`SysVChain`: non-zero indices whose symbol, name and chain entry are readable, ending at index 0)
+  no longer than `nchain`.  This is what a `.hash` section built per the gABI for a symbol table
+  satisfies; the correspondence harness's builder emits exactly such tables (and the harness's
+  oracle checks the built tables against an independent lookup). -/
+
+/-- **On a well-formed table the lookup is the first symbol with the queried name on the chain of
+    the name's bucket** (bucket index = `elf_hash(name) mod nbucket`). -/
+theorem find_wf (t : SysVHashTable) (name : Slice) (symtab : Table Symbol) (strtab : Slice)
+    (hw : WFSysV t symtab strtab) :
+    ∃ start path, t.buckets.get (sysvHash name % t.buckets.len) = .ok start ∧
+      SysVChain t symtab strtab start path ∧
+      t.find name symtab strtab = .ok (firstNamed name path) :=
+  sysv_find_wf t name symtab strtab hw
+
+/-- **Finds every symbol by name**: a symbol that sits on the chain of its name's bucket is found —
+    the answer is a symbol on that chain whose name has the queried bytes (the first such, when
+    several symbols share the name). -/
+theorem find_complete (t : SysVHashTable) (name : Slice) (symtab : Table Symbol) (strtab : Slice)
+    (hw : WFSysV t symtab strtab) (start : Nat) (path : List (Nat × Symbol × Slice))
+    (hb : t.buckets.get (sysvHash name % t.buckets.len) = .ok start)
+    (hp : SysVChain t symtab strtab start path)
+    (i : Nat) (sym : Symbol) (w : Slice) (hm : (i, sym, w) ∈ path) (hn : w.beqBytes name = true) :
+    ∃ j s, t.find name symtab strtab = .ok (some (j, s)) ∧
+      ∃ w', (j, s, w') ∈ path ∧ w'.beqBytes name = true := by
+  obtain ⟨start', path', h1, h2, h3⟩ := sysv_find_wf t name symtab strtab hw
+  rw [hb] at h1; injection h1 with h1; subst h1
+  have hpe : path' = path := SysVChain.unique h2 hp
+  subst hpe
+  obtain ⟨j, s, hf, hw'⟩ := firstNamed_some name path' i sym w hm hn
+  exact ⟨j, s, by rw [h3, hf], hw'⟩
+
+/-- **Returns `None` for every absent name**: if no symbol on the chain of the name's bucket
+    carries the name — whether or not the hash or the bucket collides with present names — the
+    answer is `None`. -/
+theorem find_absent (t : SysVHashTable) (name : Slice) (symtab : Table Symbol) (strtab : Slice)
+    (hw : WFSysV t symtab strtab) (start : Nat) (path : List (Nat × Symbol × Slice))
+    (hb : t.buckets.get (sysvHash name % t.buckets.len) = .ok start)
+    (hp : SysVChain t symtab strtab start path)
+    (habs : ∀ e, e ∈ path → e.2.2.beqBytes name = false) :
+    t.find name symtab strtab = .ok none := by
+  obtain ⟨start', path', h1, h2, h3⟩ := sysv_find_wf t name symtab strtab hw
+  rw [hb] at h1; injection h1 with h1; subst h1
+  have hpe : path' = path := SysVChain.unique h2 hp
+  subst hpe
+  rw [h3, firstNamed_none name path' habs]
+
 /- Non-vacuity: nbucket=1, nchain=2, bucket[0]=1, chain=[0,0]; symbol 1 named "a" -/
 example :
     (match SysVHashTable.new true .ELF32 (Slice.ofArray #[1,0,0,0, 2,0,0,0, 1,0,0,0, 0,0,0,0, 0,0,0,0]) with
@@ -63,5 +122,24 @@ example :
                                                   1,0,0,0, 0,0,0,0, 0,0,0,0, 0x12,0,1,0]))
          (Slice.ofArray #[0, 97, 0])).isOk
      | _ => false) = true := by decide
+
+/- Non-vacuity of `WFSysV`: the same table (nbucket=1, nchain=2, bucket[0]=1, chain=[0,0]) is
+   well-formed for the symbol table whose symbol 1 is named "a". -/
+def exData : Slice := Slice.ofArray #[1,0,0,0, 2,0,0,0, 1,0,0,0, 0,0,0,0, 0,0,0,0]
+def exT : SysVHashTable := ⟨u32Table true .ELF32 ⟨exData.buf, 8, 12⟩, u32Table true .ELF32 ⟨exData.buf, 12, 20⟩⟩
+def exSym : Table Symbol := symTable true .ELF32 (Slice.ofArray #[0,0,0,0, 0,0,0,0, 0,0,0,0, 0,0,0,0,
+                                                  1,0,0,0, 0,0,0,0, 0,0,0,0, 0x12,0,1,0])
+def exStr : Slice := Slice.ofArray #[0, 97, 0]
+theorem exWF : WFSysV exT exSym exStr := by
+  refine ⟨by decide, ?_⟩
+  intro b hb
+  have hb0 : b = 0 := by
+    have : exT.buckets.len = 1 := by decide
+    omega
+  subst hb0
+  refine ⟨1, [(1, ⟨1,1,0x12,0,0,0⟩, ⟨exStr.buf, 1, 2⟩)], by decide, ?_, by decide⟩
+  exact SysVChain.cons 1 _ _ 0 [] (by decide) (by decide) (by decide) (by decide) SysVChain.nil
+example : (exT.find (Slice.ofArray #[97]) exSym exStr).isOk = true := by decide
+example : elfHash (Slice.ofArray #[97]) = 97 := by decide
 
 end Elf.C12
